@@ -207,6 +207,8 @@ def execute(beh, R, variant=0, rnd=None, cache=None, probe=True, want_obj=False)
                     raise MachineryError("unknown op %r" % op)
         except MachineryError:
             raise
+        except katoms.Diverged:
+            break
         except Exception as e:
             rec["exc"] = type(e).__name__
             rec["exc_msg"] = str(e)[:200]
